@@ -252,15 +252,16 @@ class Key(AbstractKey):
         self.is_default = is_default
 
     def __len__(self) -> int:
-        cursor = self.pib.conn.execute('SELECT count(*) FROM keys WHERE identity_id=?', (self.row_id,))
+        cursor = self.pib.conn.execute('SELECT count(*) FROM certificates WHERE key_id=?', (self.row_id,))
         ret = cursor.fetchone()[0]
         cursor.close()
         return ret
 
     def __getitem__(self, name: NonStrictName) -> Certificate:
         name = Name.to_bytes(name)
-        sql = 'SELECT id, certificate_name, certificate_data, is_default FROM certificates WHERE certificate_name=?'
-        cursor = self.pib.conn.execute(sql, (name,))
+        sql = ('SELECT id, certificate_name, certificate_data, is_default FROM certificates '
+               'WHERE certificate_name=? AND key_id=?')
+        cursor = self.pib.conn.execute(sql, (name, self.row_id))
         data = cursor.fetchone()
         if not data:
             raise KeyError(name)
@@ -358,8 +359,8 @@ class Identity(AbstractIdentity):
 
     def __getitem__(self, name: NonStrictName) -> Key:
         name = Name.to_bytes(name)
-        cursor = self.pib.conn.execute('SELECT id, key_name, key_bits, is_default FROM keys WHERE key_name=?',
-                                       (name,))
+        cursor = self.pib.conn.execute('SELECT id, key_name, key_bits, is_default FROM keys '
+                                       'WHERE key_name=? AND identity_id=?', (name, self.row_id))
         data = cursor.fetchone()
         if not data:
             raise KeyError(name)
